@@ -124,12 +124,16 @@ def cases(tier):
         return lambda t: {"fam": fam, "base": t[0], "muts": [list(x) for x in t[1]]}
     return st.one_of(
         st.tuples(c01.cases(tier), mut).map(tag("xml")),
-        st.tuples(c01.cases(tier), mut).map(tag("xml")),
+        # every element x every class key of the interface (prefix bound)
+        st.tuples(c01.cases(tier), mut).map(tag("xml")).map(lambda c: dict(c, all=True)),
         st.tuples(c02.cases(tier), mut).map(tag("dict")),
         st.tuples(c03.cases(tier), mut).map(tag("http")))
 
 
-INJECT = [1, "s", True, None, {}, [], {"x": 1}, [1, 2], 1.5, "2020-01-01", {"C0": {}}, [[1]]]
+ALL_CAP = 800    # retaggings per exhaustive case (elements x keys, strided above that)
+
+INJECT = [1, "s", True, None, {}, [], {"x": 1}, [1, 2], 1.5, "2020-01-01", {"C0": {}}, [[1]],
+          2.0, 1e20, 0, 0.0, False, ""]
 
 
 def _kind(x):
@@ -137,8 +141,10 @@ def _kind(x):
         return "null"
     if isinstance(x, bool):
         return "bool"
-    if isinstance(x, (int, float)):
-        return "number"
+    if isinstance(x, int):
+        return "int"
+    if isinstance(x, float):
+        return "float"
     if isinstance(x, (str, bytes)):
         return "string"
     if isinstance(x, dict):
@@ -213,7 +219,16 @@ def run_xml(case, rec):
     elements = [e for e in req_body.iter() if isinstance(e.tag, str)]
     m = base["m"]
     labels = set()
-    for (a, b, c) in case["muts"]:
+    muts = case["muts"]
+    if case.get("all"):
+        pairs = [(a, b, 0) for a in range(len(elements)) for b in range(len(keys))]
+        stride = max(1, len(pairs) // ALL_CAP)
+        off = case["muts"][0][0] % stride
+        muts = pairs[off::stride] + [tuple(x) for x in case["muts"]]
+        rec.count("xml:exhaustive-cases")
+        if stride == 1:
+            rec.count("xml:exhaustive-cases-complete")
+    for (a, b, c) in muts:
         body = copy.deepcopy(req_body)
         els = [e for e in body.iter() if isinstance(e.tag, str)]
         el = els[a % len(els)]
@@ -231,7 +246,14 @@ def run_xml(case, rec):
             new.set(k2, v2)
         for ch in list(el):
             new.append(ch)
-        new.set(ref_xml.XSI_TYPE, "zq:%s" % name)
+        pfx = "zq"
+        if bind == "bound" and ns:
+            # lxml drops a redundant declaration when the element is moved under a parent
+            # that already binds the namespace: use the prefix in scope
+            for p_, u_ in el.nsmap.items():
+                if u_ == ns and p_:
+                    pfx = p_
+        new.set(ref_xml.XSI_TYPE, "%s:%s" % (pfx, name))
         if el.getparent() is None:
             body = new
         else:
